@@ -303,6 +303,10 @@ func treeOfBytes(v value) (*jnode, *jsonSyntaxErr) {
 		if s, ok := b.str.(string); ok {
 			return parseJSONText([]byte(s))
 		}
+		if it, ok := intOfString(b.str); ok {
+			// the decimal rendering of an integer is a JSON number
+			return &jnode{k: jNum, num: mkBigT(it)}, nil
+		}
 		panic(engineErr("json: cannot parse a symbolic byte string that carries no tree"))
 	}
 	panic(engineErr(fmt.Sprintf("json: data is %T", v)))
